@@ -1,7 +1,11 @@
-(* C03 — question (1) of the termination programme: is "a locked machine holds its locked block as
-   its valid block" an invariant of the (F70-repaired) code model?  NO.
+(* C03 — finding F83 (REPAIRED): the regression witness.  Question (1) of the termination programme:
+   is "a locked machine holds its locked block as its valid block" an invariant of the code model?
+   Of the F70-repaired model BEFORE the repair of F83 (C03/UnfixedF83.v: run_u83, the state machine
+   with enterPrecommit's re-lock as it was): NO.  Of the model of record (F83 repaired: the re-lock
+   also updates the valid block): YES, proved in C03/LockValid.v; the same inputs end with valid
+   block X of round 6 (lv_repaired below).
 
-   REFUTED on the model of record, by a run of ONE machine from the initial state (29 inputs):
+   REFUTED on the unrepaired model, by a run of ONE machine from the initial state (29 inputs):
    the machine ends, not halted, in round 7 at step Propose, LOCKED on block X (hash 5) with
    LockedRound = 6 while its VALID block is Y (hash 7) with ValidRound = 2 - different blocks,
    valid round below the lock round: clause inv'_lock_valid of SyncWeak.Inv' fails for every
@@ -29,7 +33,7 @@
    no block ever gets +2/3 prevotes from the correct validators alone: with the faulty
    validators silent NO round decides although every message is delivered. *)
 From Coq Require Import List ZArith NArith Bool Lia.
-From TM Require Import C02.Model C03.Round C03.SyncNet C03.Unsettled.
+From TM Require Import C02.Model C03.Round C03.SyncNet C03.Unsettled C03.UnfixedF83.
 From TM Require C03.Sync C03.SyncWeak.
 Import ListNotations.
 Open Scope Z_scope.
@@ -70,10 +74,10 @@ Definition lv_prefix : list input :=
     w_vote PRECOMMIT 6 w_X 0;
     lv_tmo 6 SPrecommitWait ].
 
-Definition lv_state : cstate := fst (run (lv_env 0) (init_state (lv_env 0) 1 None) lv_prefix).
+Definition lv_state : cstate := fst (run_u83 (lv_env 0) (init_state (lv_env 0) 1 None) lv_prefix).
 
 (* the stations of the run *)
-Definition lv_after (n : nat) : cstate := fst (run (lv_env 0) (init_state (lv_env 0) 1 None) (firstn n lv_prefix)).
+Definition lv_after (n : nat) : cstate := fst (run_u83 (lv_env 0) (init_state (lv_env 0) 1 None) (firstn n lv_prefix)).
 Definition lv_view (s : cstate) :=
   (cs_round s, cs_step s, (cs_lround s, option_map b_hash (cs_lblock s)), (cs_vround s, option_map b_hash (cs_vblock s))).
 
@@ -90,14 +94,14 @@ Proof. vm_compute. repeat split. Qed.
 (* the machine proposes in round 7: its VALID block Y with POL round 2 (the last output of the run);
    handling its own proposal it prevotes its LOCKED block X *)
 Example lv_proposes_valid_prevotes_locked :
-  In (OSignProposal 1 7 2 (Some 7%N)) (last (snd (run (lv_env 0) (init_state (lv_env 0) 1 None) lv_prefix)) []) /\
-  concat (snd (run (lv_env 0) lv_state [lv_prop 7 2 7%N; IPart 1 (1%N, 70%N) 0%N (Some lv_bY)])) =
+  In (OSignProposal 1 7 2 (Some 7%N)) (last (snd (run_u83 (lv_env 0) (init_state (lv_env 0) 1 None) lv_prefix)) []) /\
+  concat (snd (run_u83 (lv_env 0) lv_state [lv_prop 7 2 7%N; IPart 1 (1%N, 70%N) 0%N (Some lv_bY)])) =
     [OSignVote PREVOTE 1 7 w_X].
 Proof. vm_compute. split; [right; left; reflexivity | reflexivity]. Qed.
 
 Theorem lock_differs_from_valid_reachable :
   exists (E : env) (ins : list input),
-    let s := fst (run E (init_state E 1 None) ins) in
+    let s := fst (run_u83 E (init_state E 1 None) ins) in
     let n := abs 10 s in
     cs_halted s = false /\ (cs_height s, cs_round s, cs_step s) = (1, 7, SPropose) /\
     (* locked on X since round 6, valid block Y of round 2 *)
@@ -136,3 +140,18 @@ Proof.
   destruct (C _ 6 5%N (or_introl eq_refl) eq_refl) as (vr & vv & Ev & Hle).
   cbn in Ev. injection Ev as <- <-. destruct Hle as [Hle|Hle]; [lia | discriminate].
 Qed.
+
+(* ---------------------------------------------------------------- the model of record (F83 repaired): the same 29
+   inputs.  The two machines agree up to the re-lock (input 27); there the repaired enterPrecommit
+   also sets ValidBlock := LockedBlock = X, ValidRound := 6.  In round 7 the machine proposes X with
+   POL round 6 and prevotes X on its own proposal. *)
+Definition lv_state_fixed : cstate := fst (run (lv_env 0) (init_state (lv_env 0) 1 None) lv_prefix).
+
+Example lv_repaired :
+  fst (run (lv_env 0) (init_state (lv_env 0) 1 None) (firstn 26 lv_prefix)) = lv_after 26 /\
+  lv_view (fst (run (lv_env 0) (init_state (lv_env 0) 1 None) (firstn 27 lv_prefix))) = (6, SPrecommit, (6, Some 5%N), (6, Some 5%N)) /\
+  lv_view lv_state_fixed = (7, SPropose, (6, Some 5%N), (6, Some 5%N)) /\
+  In (OSignProposal 1 7 6 (Some 5%N)) (last (snd (run (lv_env 0) (init_state (lv_env 0) 1 None) lv_prefix)) []) /\
+  concat (snd (run (lv_env 0) lv_state_fixed [lv_prop 7 6 5%N; IPart 1 (1%N, 50%N) 0%N (Some lv_bX)])) =
+    [OSignVote PREVOTE 1 7 w_X].
+Proof. vm_compute. repeat split. right; left; reflexivity. Qed.
